@@ -155,15 +155,16 @@ func checkC09(c *Ctx) (string, []string) {
 	c.Rule("C09.full-before-mutation", "no state mutation precedes a FULL result on any path (host calls and their register-setting helpers)", 3)
 	e.ruleNoMutationBeforeErrorF("C09.full-before-mutation", map[string]string{}, func(x string) bool { return x == "FULL" })
 
-	c.Rule("C09.threshold-arguments", "every CalcThresholdBalance call in package PVM takes items, octets and gratis offset of one and the same account (optionally adjusted by a footprint)", 5)
+	c.Rule("C09.threshold-arguments", "every CalcThresholdBalance call in package PVM takes items, octets and gratis offset of one and the same account (optionally adjusted by a footprint)", 3)
 	thr := c.Obj(saPkg, "CalcThresholdBalance")
 	for _, f := range c.SrcFuncs("PVM") {
 		for _, call := range callsIn(f, thr) {
 			a := call.Common().Args
 			s0, s1, s2 := exprStr(a[0], shapeOpts), exprStr(a[1], shapeOpts), exprStr(a[2], shapeOpts)
-			base := strings.TrimSuffix(s2, ".ServiceInfo.DepositOffset")
-			ok := base != s2 && strings.Contains(s0, base+".ServiceInfo.Items") && strings.Contains(s1, base+".ServiceInfo.Bytes") &&
-				!strings.Contains(s0, ".ServiceInfo.Bytes") && !strings.Contains(s1, ".ServiceInfo.Items")
+			// the three fields hang off one and the same value: an account (x.ServiceInfo.F) or its info record (x.F)
+			base := strings.TrimSuffix(s2, ".DepositOffset")
+			ok := base != s2 && strings.Contains(s0, base+".Items") && strings.Contains(s1, base+".Bytes") &&
+				!strings.Contains(s0, ".Bytes") && !strings.Contains(s1, ".Items")
 			c.Check(ok, "C09.threshold-arguments", funcKey(f)+" · CalcThresholdBalance("+abbr(base)+")", call.Pos(), "items/octets/offset of the same account", "threshold computed from mismatched fields: ("+abbr(s0)+", "+abbr(s1)+", "+abbr(s2)+")")
 		}
 	}
